@@ -7,7 +7,7 @@
    harness/props/c15.py exercises on the real engine under the documented knob settings. *)
 From Coq Require Import ZArith QArith String List Bool Permutation.
 Import ListNotations.
-From VTL Require Import Base.Val Model.Table Model.Scalar Model.Expr Proofs.TableP Proofs.MonadP Proofs.ExprP Proofs.PermP.
+From VTL Require Import Base.Val Model.Table Model.Scalar Model.Expr Proofs.TableP Proofs.MonadP Proofs.ExprP Proofs.PermP Proofs.SubPermP.
 
 Theorem C15_any_reordering_executor_same_result :
   forall (w : dset -> dset), (forall d, dequiv d (w d)) ->
@@ -30,6 +30,14 @@ Proof.
   exists r1, r2. repeat split; auto; try congruence.
   eapply perm_trans; [apply Permutation_sym; exact A3 | exact B3].
 Qed.
+
+(* sub applied last on top of any expression of the theorem: the reordering executor still returns the same datapoints *)
+Theorem C15_sub_on_top_any_reordering_executor :
+  forall (w : dset -> dset), (forall d, dequiv d (w d)) ->
+  forall x l, no_sub x = true ->
+  forall e r, env_wf e -> deval e (DSub x l) = Ok r ->
+  exists r', deval_nd w e (DSub x l) = Ok r' /\ dequiv r r'.
+Proof. exact deval_nd_sub_top_equiv. Qed.
 
 Example C15_nonvacuous :
   let rev_rows d := mkD (d_ids d) (d_ms d) (rev (d_rows d)) in
@@ -56,3 +64,4 @@ Proof. vm_compute. repeat split. Qed.
 
 Print Assumptions C15_any_reordering_executor_same_result.
 Print Assumptions C15_two_configurations_agree.
+Print Assumptions C15_sub_on_top_any_reordering_executor.
